@@ -541,7 +541,7 @@ class CFG:
                 return self.eval3(rhs, assume, at, depth + 1)
         return None
 
-    def paths_avoiding(self, src: int, dst: int, avoid: set, feasible: bool = True, assume=None, first_label=None) -> list | None:
+    def paths_avoiding(self, src: int, dst: int, avoid: set, feasible: bool = True, assume=None, first_label=None, at_node=None) -> list | None:
         """A path src -> dst whose interior avoids ``avoid``, or None.
 
         With ``feasible`` the search is path-sensitive for *syntactically identical* branch conditions and for the
@@ -562,11 +562,14 @@ class CFG:
                     continue
                 a2 = assume_
                 if feasible and node.kind == "test" and hasattr(node.ast, "test") and lab in (True, False):
-                    v = self.eval3(node.ast.test, dict(a2), x)
+                    here = dict(a2)
+                    if at_node is not None:
+                        here.update(at_node(x) or {})     # facts the caller knows to hold at this test (e.g. record fields holding step results)
+                    v = self.eval3(node.ast.test, here, x)
                     if v is not None and v != lab:
                         continue
                     lits = self._lits(node.ast.test, lab, x)
-                    if any((k, not vv) in a2 for k, vv in lits):
+                    if any((k, not vv) in a2 for k, vv in lits) or any(here.get(k) is (not vv) for k, vv in lits if k in here):
                         continue
                     a2 = a2 | frozenset(lits)
                 if s == dst:
